@@ -192,7 +192,7 @@ func NewStateChanges() *StateChanges {
 }
 
 // saveBalance saves the balance change of an account
-func (s *StateChanges) saveBalance(account common.Address, newBalance *uint256.Int, callIdx uint64) {
+func (s *StateChanges) saveBalance(account common.Address, newBalance *big.Int, callIdx uint64) {
 	rootKey, ok := s.roots[account]
 	if !ok {
 		rootKey = NewRootKey()
@@ -559,12 +559,15 @@ func (t *Tracer) CallTree() *CallTree {
 // TransferWithRecord is a wrapper for transfer func with balance change tracer
 func (t *Tracer) TransferWithRecord(db StateDB, from, to common.Address, amount *big.Int, transfer TransferFunc) {
 	// When deploying a contract with EoA, innerTx could be nil
+	// Balances are journaled as the big-endian bytes of the state's own big.Int: a
+	// conversion to uint256 would panic ("overflow") on a balance that a transfer
+	// pushed beyond 2^256-1, which the state database itself permits.
 	callIdx := t.CurrentCallIndex()
-	t.states.saveBalance(from, uint256.MustFromBig(db.GetBalance(from)), callIdx)
-	t.states.saveBalance(to, uint256.MustFromBig(db.GetBalance(to)), callIdx)
+	t.states.saveBalance(from, db.GetBalance(from), callIdx)
+	t.states.saveBalance(to, db.GetBalance(to), callIdx)
 	transfer(db, from, to, amount)
-	t.states.saveBalance(from, uint256.MustFromBig(db.GetBalance(from)), callIdx)
-	t.states.saveBalance(to, uint256.MustFromBig(db.GetBalance(to)), callIdx)
+	t.states.saveBalance(from, db.GetBalance(from), callIdx)
+	t.states.saveBalance(to, db.GetBalance(to), callIdx)
 }
 
 func (t *Tracer) CurrentCallIndex() uint64 {
